@@ -128,7 +128,7 @@ def handle (st : St) (line : String) : St × String :=
     -- the same heap, re-tabulated over the created ids (every other id holds the blank record), so
     -- that lookups do not walk the whole update history
     let recs := st.ids.map fun i => (i, st.heap i)
-    let h' : Heap := ⟨fun j => match recs.lookup j with | some r => r | none => {}⟩
+    let h' : Heap := ⟨recs⟩
     ({ st with heap := h' }, "ok " ++ String.intercalate " " (recs.map fun (i, _) => showNode h' i))
   | ["new", k, i, qn] =>
     match k, i.toNat?, qn.toNat? with
